@@ -42,7 +42,15 @@ def compare_ext(case, model_ans, eng_out):
         if eng_out[0] in ('vtl', 'raw'):
             return 'agree', 'null-identifier-refused'
         return 'DISAGREE:null-identifier-accepted', eng_out
-    return R.compare(case, model_ans, eng_out)
+    v, d = R.compare(case, model_ans, eng_out)
+    if v == 'agree' and isinstance(d, int) and case.get('roles') and not case.get('data_dependent') and eng_out[0] == 'ok':
+        # same datapoints: the ROLE of every non-identifier component must be the one the clauses state
+        comps = eng_out[1].get('DS_r', (None, []))[1]
+        e_att = sorted(c[0] for c in comps if c[1] == 'Attribute')
+        e_mea = sorted(c[0] for c in comps if c[1] == 'Measure')
+        if e_att != sorted(case['roles']['attributes']) or e_mea != sorted(case['roles']['measures']):
+            return 'DISAGREE:roles', {'expected': case['roles'], 'engine_attributes': e_att, 'engine_measures': e_mea}
+    return v, d
 
 
 def classify_ext(case, verdict, detail, eng_out):
@@ -58,15 +66,15 @@ def classify_ext(case, verdict, detail, eng_out):
         return 'unpivot:operand-without-measures:result-columns-differ-from-components'
     if verdict == 'DISAGREE:value' and 'unpivot' in ops and facts.get('unpivot_integer_before_number') and _rounded(detail):
         return 'unpivot:integer-measure-before-number-measure:number-value-rounded-to-integer'
-    if last == 'unpivot' and nested and verdict in ('DISAGREE:keys', 'DISAGREE:value') and _attr_unpivoted(case, detail):
-        return 'nested:unpivot-after-calc-attribute:attribute-unpivoted-as-measure'
+    if 'unpivot' in ops and nested and verdict in ('DISAGREE:keys', 'DISAGREE:value') and _role_calc_unpivoted(case, detail):
+        return 'nested:unpivot-after-calc-with-role:non-measure-unpivoted-as-measure'
     if 'aggrc' in ops and facts.get('aggr_over_attribute') and eng_out[0] == 'raw' and eng_out[1].endswith('IndexError'):
         return 'aggr-clause:aggregate-over-attribute:raw-%s' % eng_out[1].split('.')[-1]
     generic = CC.classify(case, verdict, detail, eng_out)
     if generic == 'float-sensitive' or generic.startswith('nested-expression:transpiler-emits-sql-duckdb-rejects:'):
         return generic          # the shared coarse classes of nested dataset expressions (DESIGN.md 9.6)
     # generic classes of the shared classifier, made specific to the operator family
-    return 'clause-ext:%s:%s' % ('+'.join(o for o in ops if o in GX.EXT_OPS) or last, generic)
+    return 'clause-ext:%s:%s' % ('+'.join(sorted({o for o in ops if o in GX.EXT_OPS})) or last, generic)
 
 
 def _rounded(detail):
@@ -78,11 +86,12 @@ def _rounded(detail):
         return False
 
 
-def _attr_unpivoted(case, detail):
+def _role_calc_unpivoted(case, detail):
+    """a component that a calc of the SAME statement made an attribute / identifier shows up as a value of the unpivot identifier."""
     if not isinstance(detail, dict) or 'engine_only' not in detail:
         return False
-    atts = set(case.get('facts', {}).get('attributes_before_unpivot', []))
-    return any(any("'%s'" % a in k for a in atts) for k in detail['engine_only'])
+    names = set(case.get('facts', {}).get('nested_role_calc_before_unpivot', []))
+    return any(any("'%s'" % a in k for a in names) for k in detail['engine_only'])
 
 
 # ---------------------------------------------------------------------------- Reference-Manual oracle for the model
@@ -231,7 +240,7 @@ def report_ext(ck, results, min_agree=10):
 def run_ext(ck):
     q = ck.quick()
     rm_oracle(ck)
-    cases = gen_cases(ck, 110 if q else 3000)
+    cases = gen_cases(ck, 64 if q else 3000)
     res = run_cases(ck, cases)
     report_ext(ck, res)
     ck.trusted('correspondence harness of the extension (harness/sem/gen_clause_ext.py, checks/c02_ext.py: role bookkeeping, comparison rules)')
